@@ -8,6 +8,7 @@ import (
 	"errors"
 	"fmt"
 	"math"
+	"strconv"
 	"strings"
 	"time"
 
@@ -915,6 +916,21 @@ func structuralRows() []row {
 			for _, i := range idx {
 				vs = append(vs, pv[i])
 				el = append(el, vObj((&pv[i]).vid(), ptrObjLines(pv[i].id, pv[i].n)))
+			}
+			return func(key string) zap.Field { return zap.ObjectValues(key, vs) }, el
+		})
+		add(&ovc, "[]selfObj", 3, func(idx []int, isNil bool) (func(string) zap.Field, []string) {
+			var vs []selfObj
+			var el []string
+			if !isNil {
+				vs = []selfObj{}
+			}
+			for _, i := range idx {
+				vs = append(vs, selfObj{id: "s" + strconv.Itoa(i)})
+			}
+			for k := range vs {
+				vs[k].self = &vs[k] // after the slice has its final backing array
+				el = append(el, vObj((&vs[k]).vid(), []string{kv("id", vStr(vs[k].id)), kv("receiver_is_the_element", vBool(true))}))
 			}
 			return func(key string) zap.Field { return zap.ObjectValues(key, vs) }, el
 		})
